@@ -3,7 +3,7 @@ import ast
 import itertools
 
 from sa.variance import UNKNOWN, eval_guard, path_literals
-from .common import Ctx, call_name, dotted, is_name, kw, norm, own_calls, params
+from .common import Ctx, call_name, dotted, is_name, kw, local_assignments, norm, own_calls, params
 
 P = 'C09'
 FN = 'find.tests_from_suite'
@@ -245,69 +245,122 @@ def r3_unit_switches(ctx, rep, R='C09.R3'):
     rep.check(table == want, R, 'get_options: (-u, -f) decision table', 'the unit/non-unit switches '
               'resolve to %s, expected %s' % (table, want), key='switches', func=go.qualname,
               where=ctx.where(go, go.node))
-    # Filter.global_setup
+    # Filter.global_setup: the condition under which the unit-test layer is removed from the
+    # registry, read off the branch literals that hold at the removal (flag locals expanded), is
+    # evaluated on all 8 combinations of (--non-unit, --layer given, --layer accepts the unit layer)
     ff = ctx.model.func('filter.Filter.global_setup')
-    blk = None
-    for st in ff.node.body:
-        if isinstance(st, ast.If) and 'UNITTEST_LAYER' in norm(st.test) and \
-                isinstance(st.test, ast.Compare) and isinstance(st.test.ops[0], ast.In):
-            blk = st
-    if blk is None:
-        rep.undecide(R, 'Filter.global_setup', 'no "if UNITTEST_LAYER in layers" block')
+    from .common import alias_dotted, guard_literals
+    rem = []
+    for n in ast.walk(ff.node):
+        if isinstance(n, ast.Call) and isinstance(n.func, ast.Attribute) and n.func.attr == 'pop' and \
+                n.args and is_name(n.args[0], 'UNITTEST_LAYER'):
+            rem.append(n)
+        if isinstance(n, ast.Delete) and any(isinstance(t, ast.Subscript) and
+                                             is_name(t.slice, 'UNITTEST_LAYER') for t in n.targets):
+            rem.append(n)
+    if len(rem) != 1:
+        rep.undecide(R, 'Filter.global_setup', 'expected one site removing UNITTEST_LAYER from the '
+                     'registry, found %d' % len(rem))
         return
-    # enumerate the paths of the block with the value of should_run
-    from .c08 import _sym_paths
-    paths = []
-    _sym_paths(list(blk.body), {'conds': [], 'stores': []}, paths)
-    pops = [c for c in ast.walk(blk) if isinstance(c, ast.Call) and isinstance(c.func, ast.Attribute)
-            and c.func.attr == 'pop' and 'UNITTEST_LAYER' in norm(c)]
-    flag = None
-    if len(pops) == 1:
-        lits = path_literals(pops[0], blk)
-        if len(lits) == 1 and isinstance(lits[0][0], ast.Name) and lits[0][1] is False:
-            flag = lits[0][0].id
-    if flag is None:
-        rep.undecide(R, 'Filter.global_setup', 'the unit layer is not removed under "if not <flag>"')
-        return
+    blk = rem[0]
+    from .common import expander, node_of
+    gff = ctx.cfg(ff)
+    nid = node_of(gff, rem[0])
+    lits = gff.dominating_literals(nid, expand=expander(ff.node)) if nid is not None else \
+        guard_literals(ctx, ff, rem[0])
+    # a flag local that survives the expansion (initial value conditionally overwritten ...) is
+    # replaced by its symbolic value at the test that reads it
+    from .common import symbolic_value
+    from sa.variance import split_literals
+    lits2 = []
+    for e, pos in lits:
+        flags = [x.id for x in ast.walk(e) if isinstance(x, ast.Name) and isinstance(x.ctx, ast.Load) and
+                 len([v for v in local_assignments(ff.node).get(x.id, [])]) > 1]
+        def reader_of(fl):
+            # the innermost if statement around the removal whose test reads the flag
+            node_ = rem[0]
+            while getattr(node_, '_parent', None) is not None and node_ is not ff.node:
+                node_ = node_._parent
+                if isinstance(node_, ast.If) and any(is_name(y, fl) for y in ast.walk(node_.test)):
+                    return node_
+            return None
+        tests = [reader_of(fl) for fl in flags]
+        if flags and all(t is not None for t in tests):
+            new = e
+            for fl, at in zip(flags, tests):
+                v = symbolic_value(ff.node, at, fl)
+                if v is not None:
+                    class _S(ast.NodeTransformer):
+                        def visit_Name(self, n_):
+                            return v if n_.id == fl and isinstance(n_.ctx, ast.Load) else n_
+                    from .common import ast_copy
+                    new = _S().visit(ast_copy(new))
+            lits2 += split_literals(new, pos)
+        else:
+            lits2.append((e, pos))
+    lits = lits2
+
+    def atoms(non, given, acc):
+        def opt(name, val):
+            return {'options.' + name: val, 'self.runner.options.' + name: val,
+                    'runner.options.' + name: val}
+        env = {}
+        env.update(opt('non_unit', non))
+        env.update(opt('layer', ['x'] if given else None))
+        for e, _pos in lits:
+            for x in ast.walk(e):
+                if isinstance(x, ast.Compare) and isinstance(x.ops[0], (ast.In, ast.NotIn)) and \
+                        is_name(x.left, 'UNITTEST_LAYER'):
+                    env[norm(x)] = isinstance(x.ops[0], ast.In)
+                if isinstance(x, ast.Call) and x.args and is_name(x.args[0], 'UNITTEST_LAYER') and \
+                        ('build_filtering_func' in norm(x.func) or any(
+                            isinstance(v, ast.Call) and call_name(v) == 'build_filtering_func'
+                            for v in local_assignments(ff.node).get(getattr(x.func, 'id', ''), [])
+                            if isinstance(v, ast.AST))):
+                    env[norm(x)] = acc
+        return env
     bad = None
     n = 0
     for non, given, acc in itertools.product((False, True), repeat=3):
+        if not given and acc is False:
+            pass
         n += 1
-        env = {'options.non_unit': non, 'options.layer': ['x'] if given else None,
-               'self.runner.options.non_unit': non,
-               'self.runner.options.layer': ['x'] if given else None}
-        vals = set()
-        for p in paths:
-            conds = [c for c in p['conds'] if not is_name(c[0] if not isinstance(c[0], ast.UnaryOp)
-                                                          else c[0].operand, flag)]
-            ok = True
-            for t, taken in conds:
-                v = eval_guard(t, env)
-                if v is UNKNOWN:
-                    rep.undecide(R, norm(t), 'cannot evaluate')
-                    return
-                if bool(v) != taken:
-                    ok = False
-            if ok:
-                v = p.get(flag)
-                if v == ('const', True):
-                    vals.add(True)
-                elif v == ('const', False):
-                    vals.add(False)
-                elif isinstance(v, tuple) and v[0] == 'call' and 'UNITTEST_LAYER' in v[1]:
-                    vals.add(acc)
-                else:
-                    vals.add('?')
+        env = atoms(non, given, acc)
+        removed = True
+        for e, pos in lits:
+            v = eval_guard(e, env)
+            if v is UNKNOWN:
+                rep.undecide(R, norm(e), 'cannot evaluate the condition under which the unit layer is removed')
+                return
+            if bool(v) != pos:
+                removed = False
+                break
         want_keep = (not non) and ((not given) or acc)
-        if vals != {want_keep} and bad is None:
-            bad = (non, given, acc, vals, want_keep)
+        if removed == want_keep and bad is None:
+            bad = (non, given, acc, {not removed}, want_keep)
     rep.check(bad is None, R, 'Filter: unit layer kept iff not non_unit and (no --layer or accepted) '
               '(%d cases)' % n, 'non_unit=%s, --layer given=%s, accepted=%s: unit layer kept=%s, '
               'expected %s' % bad if bad else '', key='unit-layer', func=ff.qualname,
               where=ctx.where(ff, blk))
+    blk = ff.node
     # the predicate used is build_filtering_func(options.layer)
-    bf = [c for c in ast.walk(blk) if isinstance(c, ast.Call) and call_name(c) == 'build_filtering_func']
-    rep.check(len(bf) == 1 and (dotted(bf[0].args[0]) or '').endswith('options.layer'), R,
+    # (the calls that judge the unit layer: in the removal condition itself, or assigned to the local
+    # the condition calls)
+    bf = []
+    for e, _pos in lits:
+        for x in ast.walk(e):
+            if isinstance(x, ast.Call) and x.args and is_name(x.args[0], 'UNITTEST_LAYER'):
+                if isinstance(x.func, ast.Call) and call_name(x.func) == 'build_filtering_func':
+                    bf.append(x.func)
+                elif isinstance(x.func, ast.Name):
+                    # the definition that reaches the removal site
+                    from .common import reaching_defs
+                    for v in reaching_defs(gff, nid, x.func.id) if nid is not None else []:
+                        if isinstance(v, ast.Call) and call_name(v) == 'build_filtering_func':
+                            bf.append(v)
+    bf = list({id(c): c for c in bf}.values())
+    rep.check(len(bf) == 1 and bf[0].args and (alias_dotted(ff.node, bf[0].args[0]) or
+                                                dotted(bf[0].args[0]) or '').endswith('options.layer'), R,
               'the unit layer is judged by build_filtering_func(options.layer)',
               'another predicate decides about the unit layer', key='unit-layer:predicate',
               func=ff.qualname, where=ctx.where(ff, blk))
